@@ -6,6 +6,9 @@ use std::collections::{BTreeMap, HashMap};
 use std::rc::Rc;
 use syn::spanned::Spanned;
 
+#[path = "eval_lib.rs"]
+mod eval_lib;
+
 // ---------------------------------------------------------------- types
 #[derive(Clone, Debug, PartialEq, Eq)]
 pub enum Ty {
@@ -286,6 +289,15 @@ pub struct Ev<'a> {
     /// atoms with one of these suffixes are not forked on: only the `true` branch is followed
     /// (used to collapse bound(...) continuation flags where they cannot influence what is analysed)
     pub assume_true_suffix: Vec<String>,
+    /// forks taken so far by this evaluator; beyond `fork_budget` evaluation stops (fail closed)
+    pub forks: std::cell::Cell<usize>,
+    pub calls: std::cell::Cell<usize>,
+    pub trace: bool,
+    pub fork_budget: usize,
+}
+
+impl<'a> Drop for Ev<'a> {
+    fn drop(&mut self) { if std::env::var("GENLINT_SHOW_FORKS").is_ok() && self.forks.get() > 10_000 { eprintln!("forks: {} calls: {}", self.forks.get(), self.calls.get()); } }
 }
 
 fn then(outs: Outs, mut f: impl FnMut(St, Val) -> Outs) -> Outs {
@@ -305,7 +317,7 @@ fn path_str(p: &syn::Path) -> Vec<String> {
 
 impl<'a> Ev<'a> {
     pub fn new(ix: &'a Index) -> Self {
-        Ev { ix, cur_file: Default::default(), unsupported: Default::default(), push_fns: vec![], stops: vec![], max_depth: 12, open_at_top: Default::default(), inner_unroll: None, stop_vals: Default::default(), assume_true_suffix: vec![] }
+        Ev { ix, cur_file: Default::default(), unsupported: Default::default(), push_fns: vec![], stops: vec![], max_depth: 12, open_at_top: Default::default(), inner_unroll: None, stop_vals: Default::default(), assume_true_suffix: vec![], forks: Default::default(), calls: Default::default(), trace: std::env::var("GENLINT_TRACE").is_ok(), fork_budget: std::env::var("GENLINT_FORK_BUDGET").ok().and_then(|s| s.parse().ok()).unwrap_or(60_000) }
     }
     fn site(&self, sp: proc_macro2::Span) -> String {
         format!("{}:{}", self.cur_file.borrow(), sp.start().line)
@@ -320,6 +332,11 @@ impl<'a> Ev<'a> {
             F::T => vec![(st, true)],
             F::Fl => vec![(st, false)],
             g => {
+                self.forks.set(self.forks.get() + 1);
+                if self.forks.get() > self.fork_budget {
+                    if self.forks.get() == self.fork_budget + 1 { self.unsupported.borrow_mut().push(format!("state budget of {} forks exceeded (path explosion): evaluation abandoned", self.fork_budget)); }
+                    return vec![];
+                }
                 let a = g.first_atom().unwrap();
                 let mut r = Vec::new();
                 let only_true = self.assume_true_suffix.iter().any(|sfx| a.ends_with(sfx.as_str()));
@@ -389,6 +406,12 @@ impl<'a> Ev<'a> {
 
     // ------------------------------------------------------------ entry
     pub fn call_fn(&self, mut st: St, f: &Rc<FnDef>, self_val: Option<Val>, args: Vec<Val>) -> Outs {
+        self.calls.set(self.calls.get() + 1);
+        if self.trace { eprintln!("call#{} d{} {} forks={} events={} cond={}", self.calls.get(), st.depth, f.qual, self.forks.get(), st.events.len(), st.cond.len()); if self.calls.get() % 20000 == 0 { eprintln!("COND {}", st.cond.iter().map(|(a, b)| format!("{}{}", if *b { "" } else { "!" }, a)).collect::<Vec<_>>().join(" & ")); } }
+        if self.calls.get() > self.fork_budget * 4 {
+            if self.calls.get() == self.fork_budget * 4 + 1 { self.unsupported.borrow_mut().push(format!("state budget of {} inlined calls exceeded (path explosion): evaluation abandoned", self.fork_budget * 4)); }
+            return vec![];
+        }
         if st.depth >= self.max_depth {
             self.unsup(&format!("call depth exceeded at {}", f.qual), f.sig.ident.span());
             return vec![];
@@ -435,19 +458,29 @@ impl<'a> Ev<'a> {
         }
         let outs = self.eval_block(st, &f.block);
         self.cur_file.replace(saved_file);
-        outs.into_iter()
-            .map(|(mut s, fl)| {
-                s.env = saved_env.clone();
-                s.self_ty = saved_self.clone();
-                s.depth -= 1;
-                let fl = match fl {
-                    Flow::Ret(v) | Flow::Val(v) => Flow::Val(v),
-                    Flow::Div => Flow::Div,
-                    Flow::Brk | Flow::Cont => Flow::Div,
-                };
-                (s, fl)
-            })
-            .collect()
+        // a function declared to return `Result<..>` whose value is a collected sequence: `collect()` targeted the Result
+        let returns_result = matches!(&f.sig.output, syn::ReturnType::Type(_, t) if { let s = crate::index::ty_str(t); s.starts_with("Result<") || s.starts_with("syn::Result<") });
+        let mut res: Outs = Vec::new();
+        for (mut s, fl) in outs {
+            s.env = saved_env.clone();
+            s.self_ty = saved_self.clone();
+            s.depth -= 1;
+            let fl = match fl {
+                Flow::Ret(v) | Flow::Val(v) => Flow::Val(v),
+                Flow::Div => Flow::Div,
+                Flow::Brk | Flow::Cont => Flow::Div,
+            };
+            if returns_result {
+                if let Flow::Val(v @ (Val::List(_) | Val::Array(_))) = &fl {
+                    if let Some(o) = self.collect_results(s.clone(), v) { res.extend(o); continue; }
+                }
+                if let Flow::Val(v @ Val::Rep { .. }) = &fl {
+                    if let Some(o) = self.collect_results(s.clone(), &Val::List(vec![v.clone()])) { res.extend(o); continue; }
+                }
+            }
+            res.push((s, fl));
+        }
+        res
     }
 
     fn call_closure(&self, mut st: St, c: &Rc<ClosureVal>, args: Vec<Val>) -> Outs {
@@ -478,6 +511,31 @@ impl<'a> Ev<'a> {
     // ------------------------------------------------------------ blocks
     pub fn eval_block(&self, mut st: St, b: &syn::Block) -> Outs {
         st.env.push(HashMap::new());
+        // items are visible in the whole block: local fns and enum variants brought in by `use Enum::{..}`
+        for stmt in &b.stmts {
+            match stmt {
+                syn::Stmt::Item(syn::Item::Fn(f)) => st.bind(&f.sig.ident.to_string(), Val::LocalFn(Rc::new(f.clone()))),
+                syn::Stmt::Item(syn::Item::Use(u)) => {
+                    fn leaves(t: &syn::UseTree, prefix: &mut Vec<String>, out: &mut Vec<(Vec<String>, String)>) {
+                        match t {
+                            syn::UseTree::Path(p) => { prefix.push(p.ident.to_string()); leaves(&p.tree, prefix, out); prefix.pop(); }
+                            syn::UseTree::Name(n) => out.push((prefix.clone(), n.ident.to_string())),
+                            syn::UseTree::Rename(_) => {}
+                            syn::UseTree::Glob(_) => out.push((prefix.clone(), "*".into())),
+                            syn::UseTree::Group(g) => { for i in &g.items { leaves(i, prefix, out); } }
+                        }
+                    }
+                    let mut out = Vec::new();
+                    leaves(&u.tree, &mut Vec::new(), &mut out);
+                    for (prefix, name) in out {
+                        let Some(en) = prefix.last().map(|e| if e == "Self" { st.self_ty.clone().unwrap_or_default() } else { e.clone() }) else { continue };
+                        let Some(ed) = self.ix.enums.get(&en) else { continue };
+                        for v in ed.variants.iter().filter(|v| name == "*" || **v == name) { st.bind(v, Val::Enum { ty: en.clone(), var: v.clone(), args: vec![] }); }
+                    }
+                }
+                _ => {}
+            }
+        }
         let mut cur: Outs = vec![(st, Flow::Val(Val::Unit))];
         let n = b.stmts.len();
         for (i, s) in b.stmts.iter().enumerate() {
@@ -605,8 +663,9 @@ impl<'a> Ev<'a> {
         match p {
             syn::Pat::Wild(_) => vec![(st, Some(vec![]))],
             syn::Pat::Ident(pi) => {
-                if pi.subpat.is_some() {
-                    self.unsup("@ pattern", p.span());
+                if let Some((_, sub)) = &pi.subpat {
+                    let n = pi.ident.to_string();
+                    return self.match_pat(st, sub, &v).into_iter().map(|(s, m)| (s, m.map(|mut b| { b.push((n.clone(), v.clone())); b }))).collect();
                 }
                 let n = pi.ident.to_string();
                 // `None`, and unit variants of the scrutinee's own enum, are paths even when written as a bare identifier
@@ -666,6 +725,7 @@ impl<'a> Ev<'a> {
             syn::Pat::Tuple(t) => {
                 let vs = match &v {
                     Val::Tuple(vs) if vs.len() == t.elems.len() => vs.clone(),
+                    Val::Sym { .. } | Val::Opaque { .. } => (0..t.elems.len()).map(|i| self.project(&st, &v, &i.to_string())).collect(),
                     _ => {
                         self.unsup(&format!("tuple pattern vs {}", v.short()), p.span());
                         return vec![];
@@ -731,6 +791,43 @@ impl<'a> Ev<'a> {
                         self.unsup(&format!("struct pattern on {}", v.short()), p.span());
                         vec![]
                     }
+                }
+            }
+            syn::Pat::Type(pt) => self.match_pat(st, &pt.pat, &v),
+            syn::Pat::Slice(sl) => {
+                let elems: Vec<&syn::Pat> = sl.elems.iter().collect();
+                let rest_at = elems.iter().position(|e| matches!(e, syn::Pat::Rest(_)) || matches!(e, syn::Pat::Ident(pi) if matches!(pi.subpat.as_ref().map(|s| &*s.1), Some(syn::Pat::Rest(_)))));
+                if let Some(vs) = self.seq_of(&v) {
+                    match rest_at {
+                        None => { if vs.len() != elems.len() { return vec![(st, None)]; } self.match_seq(st, elems, vs) }
+                        Some(ri) => {
+                            let after = elems.len() - ri - 1;
+                            if vs.len() < ri + after { return vec![(st, None)]; }
+                            let mut pats: Vec<&syn::Pat> = elems[..ri].to_vec();
+                            let mut vals: Vec<Val> = vs[..ri].to_vec();
+                            pats.extend(elems[ri + 1..].iter().copied());
+                            vals.extend(vs[vs.len() - after..].iter().cloned());
+                            let mid = Val::Array(vs[ri..vs.len() - after].to_vec());
+                            let bind_rest = if let syn::Pat::Ident(pi) = elems[ri] { Some(pi.ident.to_string()) } else { None };
+                            self.match_seq(st, pats, vals).into_iter().map(|(s, m)| (s, m.map(|mut b| { if let Some(n) = &bind_rest { b.push((n.clone(), mid.clone())); } b }))).collect()
+                        }
+                    }
+                } else if let (Val::Sym { path, .. }, None) = (&v, rest_at) {
+                    // a symbolic collection of exactly this many elements (one element: the generic one)
+                    let n = elems.len();
+                    let atom = if n == 0 { F::A(format!("?len({path})==0")) } else { F::A(format!("?len({path})=={n}")) };
+                    let elem = self.sym_iter(&v).map(|(_, e)| e);
+                    let mut r = Vec::new();
+                    for (s, b) in self.decide(st, &atom) {
+                        if !b { r.push((s, None)); continue; }
+                        if n == 0 { r.push((s, Some(vec![]))); continue; }
+                        if n == 1 { if let Some(e) = &elem { r.extend(self.match_pat(s, elems[0], e)); continue; } }
+                        self.unsup("slice pattern of several elements on a symbolic collection", p.span());
+                    }
+                    r
+                } else {
+                    self.unsup(&format!("slice pattern vs {}", v.short().chars().take(60).collect::<String>()), p.span());
+                    vec![]
                 }
             }
             other => {
@@ -812,6 +909,24 @@ impl<'a> Ev<'a> {
                 }
                 r
             }
+            Val::Opaque { what, deps } if what == ".strip_prefix" && deps.len() == 2 && matches!(&deps[1], Val::Str(p) if p == "r#") && (var == "Some" || var == "None") => {
+                // `name.strip_prefix("r#")` on a symbolic name: with the prefix the rest is the un-raw name; without it the
+                // name itself is the un-raw name (the state is refined accordingly)
+                let name = deps[0].clone();
+                let atom = F::A(format!("raw-prefixed({})", name.short().chars().take(80).collect::<String>()));
+                let unraw = Val::opaque(".unraw", vec![name.clone()]);
+                let mut r = Vec::new();
+                for (mut s, b) in self.decide(st, &atom) {
+                    if !b {
+                        let key = name.short();
+                        for sc in s.env.iter_mut() { for (_, val) in sc.iter_mut() { if val.short() == key { *val = unraw.clone(); } } }
+                    }
+                    if b == (var == "Some") {
+                        if var == "Some" && sub.len() == 1 { r.extend(self.match_pat(s, sub[0], &unraw)); } else { r.push((s, Some(vec![]))); }
+                    } else { r.push((s, None)); }
+                }
+                r
+            }
             Val::Opaque { .. } => {
                 let name = v.short();
                 let name = if name.len() > 60 { format!("{}…", &name.chars().take(60).collect::<String>()) } else { name };
@@ -877,6 +992,7 @@ impl<'a> Ev<'a> {
 
     pub fn eval_expr(&self, st: St, e: &syn::Expr) -> Outs {
         use syn::Expr::*;
+        if self.forks.get() > self.fork_budget || self.calls.get() > self.fork_budget * 4 { return vec![]; }
         match e {
             Lit(l) => vec![(st, Flow::Val(self.lit_val(&l.lit)))],
             Paren(p) => self.eval_expr(st, &p.expr),
@@ -1093,6 +1209,14 @@ impl<'a> Ev<'a> {
                 }
                 r
             }
+            Val::List(_) | Val::Array(_) if self.collect_results(st.clone(), &v).is_some() => {
+                // `collect::<Result<_>>()?`: the first error returns, otherwise all payloads
+                let outs = self.collect_results(st, &v).unwrap();
+                then(outs, |s, rv| match &rv {
+                    Val::Enum { var, args, .. } if var == "Ok" => vec![(s, Flow::Val(args.first().cloned().unwrap_or(Val::Unit)))],
+                    _ => vec![(s, Flow::Ret(rv.clone()))],
+                })
+            }
             _ => {
                 self.unsup(&format!("? on {}", v.short()), sp);
                 vec![]
@@ -1135,6 +1259,7 @@ impl<'a> Ev<'a> {
             return self.const_val(&s2, c);
         }
         if ty == "Option" && last == "None" { return Val::none(); }
+        if n == 2 { return Val::opaque(format!("path {ty}::{last}"), vec![]); }
         Val::opaque(format!("path {}", segs.join("::")), vec![])
     }
     fn const_val(&self, st: &St, e: &syn::Expr) -> Val {
@@ -1433,9 +1558,11 @@ impl<'a> Ev<'a> {
                 }
                 cur.into_iter().map(|(s, fl)| (s, if matches!(fl, Flow::Brk) { Flow::Val(Val::Unit) } else { fl })).collect()
             }
-            Val::Sym { .. } | Val::Opaque { .. } if self.sym_iter(&it).is_some() => {
+            Val::Rep { items, .. } if items.is_empty() => vec![(s, Flow::Val(Val::Unit))],
+            Val::List(l) if l.len() == 1 && matches!(&l[0], Val::Rep { items, .. } if items.is_empty()) => vec![(s, Flow::Val(Val::Unit))],
+            Val::Sym { .. } | Val::Opaque { .. } | Val::Rep { .. } | Val::List(_) if self.sym_iter(&it).is_some() || Self::single_rep(&it).is_some() => {
                 // summarised loop: one symbolic iteration
-                let (path, elem) = self.sym_iter(&it).unwrap();
+                let (path, elem) = self.sym_iter(&it).or_else(|| Self::single_rep(&it)).unwrap();
                 let mut s2 = s;
                 s2.events.push(Event::Note(format!("loop-begin {path}")));
                 let mut lens: Vec<(usize, String, usize)> = Vec::new();
@@ -1566,6 +1693,7 @@ impl<'a> Ev<'a> {
                             r.extend(self.call_fn(s, &fd, None, vs));
                             continue;
                         }
+                        Val::Opaque { ref what, .. } if what.starts_with("path ") => { r.extend(self.apply_callable(s, &v, vs)); continue; }
                         Val::Sym { .. } | Val::Opaque { .. } => {
                             // calling a function-typed parameter
                             r.push((s, Flow::Val(Val::opaque(format!("call {}", segs[0]), vs))));
@@ -1620,7 +1748,7 @@ impl<'a> Ev<'a> {
                     }
                 }
             }
-            if last == "new" && vs.is_empty() && (ty == "Vec" || ty == "TokenStream") {
+            if ((last == "new" && vs.is_empty()) || (last == "with_capacity" && vs.len() == 1)) && (ty == "Vec" || ty == "TokenStream") {
                 r.push((s, Flow::Val(Val::List(vec![]))));
                 continue;
             }
@@ -1629,6 +1757,11 @@ impl<'a> Ev<'a> {
         r
     }
 
+    /// what `filter` / `map` left of a symbolic collection: exactly one (non-summarised) item per symbolic element
+    fn single_rep(it: &Val) -> Option<(String, Val)> {
+        let r = match it { Val::Rep { .. } => it, Val::List(l) if l.len() == 1 => &l[0], _ => return None };
+        match r { Val::Rep { coll, items } if items.len() == 1 && !matches!(&items[0], Val::Rep { .. }) => Some((coll.clone(), items[0].clone())), _ => None }
+    }
     /// a symbolic collection (or `enumerate` of one): (collection path, element value)
     fn sym_iter(&self, it: &Val) -> Option<(String, Val)> {
         match it {
@@ -1721,10 +1854,12 @@ impl<'a> Ev<'a> {
 
     fn eval_method(&self, st: St, m: &syn::ExprMethodCall) -> Outs {
         let name = m.method.to_string();
+        let mut st = st;
         if name == "push" || name == "extend" {
             if let syn::Expr::Path(p) = &*m.receiver {
                 if p.path.segments.len() == 1 {
                     let var = p.path.segments[0].ident.to_string();
+                    if name == "extend" { if let Some(t @ Val::Tmpl(_)) = st.lookup(&var) { st.assign(&var, Val::List(vec![t])); } }
                     if let Some(Val::List(_)) = st.lookup(&var) {
                         let args: Vec<&syn::Expr> = m.args.iter().collect();
                         let mut r = Vec::new();
@@ -1758,9 +1893,26 @@ impl<'a> Ev<'a> {
                 }
             }
         }
+        if name == "next" && m.args.is_empty() {
+            // an iterator held in a local variable over a concrete sequence: `next` consumes its first element
+            if let syn::Expr::Path(p) = &*m.receiver {
+                if p.path.segments.len() == 1 {
+                    let var = p.path.segments[0].ident.to_string();
+                    if let Some(v) = st.lookup(&var) {
+                        if let Some(mut vs) = self.seq_of(&self.deref(&st, &v)) {
+                            let mut st = st;
+                            let first = if vs.is_empty() { Val::none() } else { Val::some(vs.remove(0)) };
+                            st.assign(&var, Val::Array(vs));
+                            return vec![(st, Flow::Val(first))];
+                        }
+                    }
+                }
+            }
+        }
+        let collect_result = name == "collect" && m.turbofish.as_ref().map(|t| { let s = t.to_token_stream().to_string().replace(' ', ""); s.starts_with("::<Result<") || s.starts_with("::<syn::Result<") }).unwrap_or(false);
         let outs = self.eval_expr(st, &m.receiver);
         let args: Vec<&syn::Expr> = m.args.iter().collect();
-        then(outs, |s, recv| {
+        let outs = then(outs, |s, recv| {
             let mut r = Vec::new();
             for (s2, a) in self.eval_args(s, &args) {
                 let vs = match a {
@@ -1777,11 +1929,17 @@ impl<'a> Ev<'a> {
                 r.extend(self.builtin_method(s2, &recv, &name, vs, m.span()));
             }
             r
-        })
+        });
+        if collect_result {
+            return then(outs, |s, v| match self.collect_results(s.clone(), &v) { Some(o) => o, None => vec![(s, Flow::Val(v))] });
+        }
+        outs
     }
 
     fn builtin_method(&self, mut st: St, recv: &Val, name: &str, args: Vec<Val>, sp: proc_macro2::Span) -> Outs {
         let rv = self.deref(&st, recv);
+        let args: Vec<Val> = args.into_iter().map(|a| self.deref(&st, &a)).collect();
+        if let Some(outs) = self.lib_method(st.clone(), &rv, name, &args, sp) { return outs; }
         let v = match (name, &rv) {
             ("value", Val::Sym { ty, path }) if ty.name() == Some("Flag") => Val::Atom(F::A(path.clone())),
             ("value", Val::Struct { name: sn, fields }) if sn == "Flag" => Val::Bool(fields.iter().any(|(n, v)| n == "span" && matches!(v, Val::Enum { var, .. } if var == "Some"))),
@@ -1789,7 +1947,7 @@ impl<'a> Ev<'a> {
             ("is_none", Val::Sym { ty, path }) if ty.name() == Some("Option") => Val::Atom(F::Not(Box::new(F::A(path.clone())))),
             ("is_some", Val::Enum { var, .. }) => Val::Bool(var == "Some"),
             ("is_none", Val::Enum { var, .. }) => Val::Bool(var == "None"),
-            ("as_ref" | "as_mut" | "clone" | "iter" | "into_iter" | "iter_mut" | "to_owned" | "as_str" | "borrow" | "cloned" | "copied", _) => rv.clone(),
+            ("as_ref" | "as_mut" | "clone" | "iter" | "into_iter" | "iter_mut" | "to_owned" | "as_str" | "borrow" | "cloned" | "copied" | "into_token_stream" | "to_token_stream" | "as_slice" | "as_deref" | "by_ref" | "borrow_mut" | "to_vec" | "into", _) if name != "into" || matches!(rv, Val::Tmpl(_) | Val::List(_)) => rv.clone(),
             ("enumerate", Val::Array(vs)) => Val::Array(vs.iter().enumerate().map(|(i, v)| Val::Tuple(vec![Val::Int(i as i128), v.clone()])).collect()),
             ("enumerate", Val::Sym { .. }) => Val::opaque("enumerate", vec![rv.clone()]),
             ("len", Val::Array(vs)) => Val::Int(vs.len() as i128),
